@@ -28,9 +28,9 @@ SHARD = 250
 RULE = ("(a) one `sites` case: translator/sites.py scans every .py/.pyx under enspara/ (test excluded); each masked call "
         "must be guarded and the compiled Gen/MaskedSites.v must list the same sites. (b) `ufunc` cases: NumPy's own "
         "where=/out= behaviour (negative/add/subtract/multiply on small integers-as-doubles, with an out buffer, without "
-        "one, and with mis-shaped mask/out) against Model/Masked.v, evaluated in Coq. (c) `run` cases: 30 routines "
+        "one, and with mis-shaped mask/out) against Model/Masked.v, evaluated in Coq. (c) `run` cases: 29 routines "
         "(shannon_entropy, kl_divergence, joint_counts, mutual_information, mi_matrix, weighted_mi, normalize/transpose/"
-        "mle, assigns_to_counts, trim_disconnected, eigenspectrum, eq_probs, committors, mfpts, reactive_fluxes, "
+        "mle, assigns_to_counts, trim_disconnected, eigenspectrum and eq_probs (dense LAPACK path, and the ARPACK path on sparse matrices of >= 1000 states), committors, mfpts, reactive_fluxes, "
         "net_fluxes, reactive_populations, top_path, paths, assign_to_nearest_center, kcenters, libdist euclidean/"
         "manhattan/hamming with and without a poisoned out=, RaggedArray reads and operators) on small integer-valued "
         "inputs with many zero cells; each is executed in a child with OMP_NUM_THREADS=1 and one with 8: base call, "
@@ -45,8 +45,6 @@ TRUSTED = ["translator/sites.py: the `where=` scan (ast for .py, token scan + pe
            "modelled not verified: broadcasting (arrays are flattened to a common shape), NumPy's ufunc inner loops",
            "OMP thread count is set through the environment of two child processes (1 and 8)"]
 ASSUMPTIONS = ["masked operations: operands, mask and out already broadcast to one shape",
-               "eigenspectrum/eq_probs are exercised on < 1000 states (dense LAPACK path); the ARPACK path for larger "
-               "sparse matrices is not run",
                "process-pool code paths (n_procs > 1) are not exercised"]
 
 _repo = os.environ.get("ENSPARA_REPO", "/repo")
@@ -420,6 +418,33 @@ def c_eqp(a, p):
     return eq_probs(a["T"])
 
 
+def g_arpack(rng):
+    # >= 1000 states and sparse: the only inputs for which eigenspectrum takes the ARPACK route
+    return {"n": rng.choice([1000, 1040, 1100]), "seed": rng.randrange(10 ** 6), "n_eigs": rng.choice([2, 3, 4]),
+            "which": rng.choice(["eq_probs", "eigenspectrum"])}
+
+
+def b_arpack(p):
+    import scipy.sparse as sp
+    n = p["n"]
+    rs = np.random.RandomState(p["seed"])
+    i = np.arange(n)
+    rows = np.concatenate([i, i, i, rs.randint(0, n, 3 * n)])
+    cols = np.concatenate([i, (i + 1) % n, (i - 1) % n, rs.randint(0, n, 3 * n)])
+    vals = rs.randint(1, 9, len(rows)).astype(float)
+    C = sp.coo_matrix((vals, (rows, cols)), shape=(n, n)).tocsr()
+    C = (C + C.T).tocsr()
+    d = np.asarray(C.sum(axis=1)).ravel()
+    return {"T": sp.csr_matrix(sp.diags(1.0 / d) @ C)}
+
+
+def c_arpack(a, p):
+    from enspara.msm.transition_matrices import eigenspectrum, eq_probs
+    if p["which"] == "eq_probs":
+        return eq_probs(a["T"])
+    return eigenspectrum(a["T"], n_eigs=p["n_eigs"])
+
+
 def g_tpt(rng):
     n = rng.choice([3, 4, 5, 7])
     nodes = list(range(n))
@@ -646,6 +671,7 @@ ROUTINES = {
     "trim_disconnected": (g_trim, b_trim, c_trim),
     "eigenspectrum": (g_eig, b_eig, c_eig),
     "eq_probs": (g_eig, b_eig, c_eqp),
+    "eigenspectrum.arpack": (g_arpack, b_arpack, c_arpack),
     "committors": (g_tpt, b_tpt, c_comm),
     "mfpts_sinks": (g_tpt, b_tpt, c_mfpt_s),
     "mfpts_all": (g_tpt, b_tpt, c_mfpt_a),
@@ -664,6 +690,7 @@ ROUTINES = {
 }
 # routines whose inputs are built to contain cells the masked operations skip
 MASKED_ROUTINES = {"shannon_entropy", "mutual_information", "weighted_mi"}
+SLOW = {"eigenspectrum.arpack"}
 WEIGHT = {"shannon_entropy": 3, "mutual_information": 3, "weighted_mi": 2, "mi_matrix": 2, "RaggedArray.ops": 3,
           "libdist.euclidean": 2, "libdist.manhattan": 2, "libdist.hamming": 2}
 
@@ -814,11 +841,12 @@ def _gen_ufunc(rng):
 
 def generate(rng, tier):
     per = 7 if tier == "quick" else 60
+    few = 3 if tier == "quick" else 12
     cases = [{"kind": "sites"}]
     for _ in range(120 if tier == "quick" else 1200):
         cases.append(_gen_ufunc(rng))
     for name in ROUTINES:
-        for _ in range(per * WEIGHT.get(name, 1)):
+        for _ in range(few if name in SLOW else per * WEIGHT.get(name, 1)):
             cases.append({"kind": "run", "routine": name, "params": ROUTINES[name][0](rng)})
     return cases
 
